@@ -22,3 +22,21 @@ pub fn point(name: &'static str) {
         cb(name)
     }
 }
+
+pub type EventCallback = Arc<dyn Fn(&'static str, String) + Send + Sync>;
+
+static EVENT_CALLBACK: RwLock<Option<EventCallback>> = RwLock::new(None);
+
+/// Installs (or with `None` removes) the process-global event callback.
+pub fn set_event_callback(cb: Option<EventCallback>) {
+    *EVENT_CALLBACK.write().unwrap() = cb;
+}
+
+/// Reports a named event with a lazily built description (built only when a callback is installed).
+#[inline]
+pub fn event(name: &'static str, data: impl FnOnce() -> String) {
+    let cb = EVENT_CALLBACK.read().unwrap().clone();
+    if let Some(cb) = cb {
+        cb(name, data())
+    }
+}
